@@ -39,19 +39,67 @@ Fixpoint first_burst_ok (maxt : Z) (seen : list (Z * Z)) (evs : list event) : bo
       (if n <? maxt then ok else true) && first_burst_ok maxt (update c (n + 1) seen) t
   end.
 
+(* "a client that has stayed idle for k refill periods is admitted at least min(k, max_tokens) more times", on the
+   implementation's trace alone: when two consecutive requests of a client are k refill periods apart, the bucket holds at least
+   min(k, max) tokens at the second one (the refill is anchored at or before the first; a bucket the clean-up dropped comes back
+   full), so the next min(k, max) requests of that client are admitted whenever they come.
+   per client: time of its previous request, number of admissions still owed *)
+Fixpoint idle_ok (maxt rate : Z) (st : list (Z * (Z * Z))) (evs : list event) : bool :=
+  match evs with
+  | [] => true
+  | (t, c, ok) :: rest =>
+      let '(prev, owed) := match lookup c st with Some x => x | None => (t, 0) end in
+      let k := (t - prev) / rate in
+      let owed' := Z.max owed (Z.min k maxt) in
+      (if 0 <? owed' then ok else true) && idle_ok maxt rate (update c (t, owed' - 1) st) rest
+  end.
+
+(* the window bound over each client's whole history (first request to last): a linear-time consequence of the bound over
+   all windows, used alone on very long histories.  per client: time of its first request, admissions so far *)
+Fixpoint whole_ok (maxt rate : Z) (st : list (Z * (Z * Z))) (evs : list event) : bool :=
+  match evs with
+  | [] => true
+  | (t, c, ok) :: rest =>
+      let '(t0, adm) := match lookup c st with Some x => x | None => (t, 0) end in
+      let adm' := adm + (if ok then 1 else 0) in
+      (adm' <=? maxt + (t - t0) / rate + 1) && whole_ok maxt rate (update c (t0, adm') st) rest
+  end.
+
 (* result vector:
    [ first mismatch index (-1 = model and implementation agree);
      window monitor on the implementation trace; burst monitor on the implementation trace;
      classifier: clean-up re-grant possible (max*rate > cleanup age and a clean-up ran);
      non-trivial: >= 1 denial and (>= 1 gap of a refill period or a clean-up) ] *)
-Definition eval_lim_case (k : lim_case) : list Z :=
-  let cfg := {| lmax := lc_max k; lrate := lc_rate k |} in
-  let out := snd (lrun cfg (linit (lc_t0 k)) (lc_ops k)) in
+(* very long histories (thousands of clients) are judged on their projection to the first client: every monitor is a
+   per-client statement, and by the isolation theorem (C09) the model's answers to a client are those of the history with
+   the other clients' requests removed *)
+Fixpoint project (focus : Z) (ops : list lop) (obs : list Z) : list lop * list Z :=
+  match ops with
+  | [] => ([], [])
+  | LAllow c :: t =>
+      match obs with
+      | [] => ([], [])
+      | f :: obs' => let '(o', b') := project focus t obs' in if Z.eqb c focus then (LAllow c :: o', f :: b') else (o', b')
+      end
+  | o :: t => let '(o', b') := project focus t obs in (o :: o', b')
+  end.
+Fixpoint first_client (ops : list lop) : Z := match ops with [] => 0 | LAllow c :: _ => c | _ :: t => first_client t end.
+
+Definition eval_lim_small (maxt rate t0 : Z) (ops : list lop) (obs : list Z) : list Z :=
+  let cfg := {| lmax := maxt; lrate := rate |} in
+  let out := snd (lrun cfg (linit t0) ops) in
   let model := map (fun p => b2z (snd p)) out in
-  let evs := events_of (lc_t0 k) (lc_ops k) (lc_obs k) in
-  [ first_diff model (lc_obs k);
-    b2z (windows_ok cfg evs);
+  let evs := events_of t0 ops obs in
+  [ first_diff model obs;
+    b2z ((rate <=? 0) || (windows_ok cfg evs && whole_ok maxt rate [] evs));
     b2z (bursts_ok cfg evs);
-    b2z ((cleanup_age cfg <? lmax cfg * lrate cfg) && has_cleanup (lc_ops k));
-    b2z (has_deny (lc_obs k) && (has_gap_ge (lc_rate k) (lc_ops k) || has_cleanup (lc_ops k)));
-    b2z (first_burst_ok (lc_max k) [] evs) ].
+    b2z ((cleanup_age cfg <? lmax cfg * lrate cfg) && has_cleanup ops);
+    b2z (has_deny obs && (has_gap_ge rate ops || has_cleanup ops));
+    b2z (first_burst_ok maxt [] evs);
+    b2z ((rate <=? 0) || idle_ok maxt rate [] evs) ].
+
+Definition eval_lim_case (k : lim_case) : list Z :=
+  if 5000 <? zlen (lc_ops k) then
+    let '(ops', obs') := project (first_client (lc_ops k)) (lc_ops k) (lc_obs k) in
+    eval_lim_small (lc_max k) (lc_rate k) (lc_t0 k) ops' obs'
+  else eval_lim_small (lc_max k) (lc_rate k) (lc_t0 k) (lc_ops k) (lc_obs k).
